@@ -239,16 +239,20 @@ def c05(run):
                         "warm contexts are rotated after 4000 steps; the replay file of a violation carries the whole history of the warm context"]
 
 
+# transcript switch of MC_Update: TRUE = the pinned tree (a deleted auto-correct file leaves the loaded entries in place)
+GONE_KEEPS = "FALSE"
+
+
 def c11(run):
     run.sites = {"update", "panic"}
     deep = "FALSE" if run.quick() else "TRUE"
     tlc, s = run_tlc_replay(run, "MC_Update", "MC_Update.tla",
-                            dict(spec="Spec", constants={"Deep": deep, "Twice": "FALSE"}, invariants=["UpdatedEquivFresh", "Emit"]),
+                            dict(spec="Spec", constants={"Deep": deep, "Twice": "FALSE", "GoneKeepsLoaded": GONE_KEEPS}, invariants=["UpdatedEquivFresh", "Emit"]),
                             "C11", workers=4, threads=8, timeout=7000)
     run.add(tlc, s)
     # two update-engine calls in a row (e.g. suggestions off, then on again) after an edit
     tlc, s2 = run_tlc_replay(run, "MC_Update_twice", "MC_Update.tla",
-                             dict(spec="Spec", constants={"Deep": "FALSE", "Twice": "TRUE"}, invariants=["UpdatedEquivFresh", "Emit"]),
+                             dict(spec="Spec", constants={"Deep": "FALSE", "Twice": "TRUE", "GoneKeepsLoaded": GONE_KEEPS}, invariants=["UpdatedEquivFresh", "Emit"]),
                              "C11", workers=4, threads=8, timeout=7000)
     run.add(tlc, s2)
     # method / option switches with composition state around them: MC_Session histories contain update events
@@ -317,9 +321,15 @@ def c09(run):
 def c10(run):
     run.sites = {"fault", "panic"}
     n = 3 if run.quick() else 5
+    invs = ["Robust", "LoadedIsOnDisk", "LosesAtMostNew", "SaveLeavesValid", "ReloadAsNew", "Emit"]
     tlc, s = run_tlc_replay(run, "MC_Fault", "MC_Fault.tla",
-                            dict(spec="Spec", constants={"MaxSteps": n},
-                                 invariants=["Robust", "LoadedIsOnDisk", "LosesAtMostNew", "SaveLeavesValid", "Emit"]),
+                            dict(spec="Spec", constants={"MaxSteps": n, "Focus": '"all"'}, invariants=invs),
+                            "C10", workers=4, threads=8, timeout=7000)
+    run.add(tlc, s)
+    # the environment replaces the auto-correct file under a live context (damaged / deleted / restored), then re-loading
+    n2 = 4 if run.quick() else 6
+    tlc, s = run_tlc_replay(run, "MC_Fault_damage", "MC_Fault.tla",
+                            dict(spec="Spec", constants={"MaxSteps": n2, "Focus": '"damage"'}, invariants=invs),
                             "C10", workers=4, threads=8, timeout=7000)
     run.add(tlc, s)
     run.extra["level"] = "model_checking"
